@@ -560,6 +560,30 @@ fn mutation_corpus() -> Vec<(&'static str, String, Vec<u8>)> {
             }
         }
     }
+    // hand-assembled (not produced by the subject's encoder): a Finished PDU whose filestore
+    // response TLV value fills 254 and exactly 255 octets — what the decoder accepts there must
+    // re-encode to the same octets
+    if let Some((_, _, plain)) = c.iter().find(|x| x.1.starts_with("finished-plain") && x.2[0] & 0x02 == 0).cloned() {
+        for (n1, n2) in [(100usize, 150usize), (100, 151), (251, 0)] {
+            let mut b = plain.clone();
+            let crc = b[0] & 0x02 != 0;
+            if crc {
+                continue;
+            }
+            let mut value = vec![0x30u8]; // AppendFile, Successful
+            value.push(n1 as u8);
+            value.extend(std::iter::repeat(b'p').take(n1));
+            value.push(n2 as u8);
+            value.extend(std::iter::repeat(b'q').take(n2));
+            value.push(0);
+            b.push(0x01); // filestore response TLV
+            b.push(value.len() as u8);
+            b.extend_from_slice(&value);
+            let len = u16::from_be_bytes([b[1], b[2]]) + 2 + value.len() as u16;
+            b[1..3].copy_from_slice(&len.to_be_bytes());
+            c.push(("PDU", format!("raw/finished-response-tlv-{}", value.len()), b));
+        }
+    }
     c.push((
         "Report",
         "report".into(),
@@ -676,7 +700,19 @@ fn part_iii(decs: &[Dec], tier: Tier) -> Acc {
                     Hv { crc: CRCFlag::Present, idw: 1, seqw: 1, misc: 0 },
                 )
                 .unwrap();
-                let b = p.encode();
+                // (the subject may panic while encoding: that is a finding, not a crash of the check)
+                let b = match catch(|| p.encode()) {
+                    Ok(b) => b,
+                    Err(m) => {
+                        let sig = format!("panic|PDU|encode|{}", m.chars().filter(|c| !c.is_ascii_digit()).take(60).collect::<String>());
+                        acc.fails.entry(sig.clone()).or_insert((
+                            (l as usize, vec![], 0),
+                            Violation { clause: "panic".into(), signature: sig, detail: format!("PDU::encode panicked for a well-formed file-data PDU with CRC and length field {}: {}", l, m), replay: json!({"engine": "en-decode", "decoder": "PDU", "bytes": "", "note": format!("file data, CRC, length field {}", l)}) },
+                            1,
+                        ));
+                        return acc;
+                    }
+                };
                 if !run3("iii/valid-crc", &b, &mut acc) {
                     let sig = "accept|PDU|valid-crc-pdu-rejected".to_string();
                     acc.fails.entry(sig.clone()).or_insert((
